@@ -554,11 +554,27 @@ static void mk_deadline(int T, op_t * o, struct timespec * ts) {
 
 static void run_ops(int T, prog_t * p, void ** exit_val) {
   char ex[96];
+  long last_r = 0;          /* return value of the previous op of this program (for `ifret`) */
   for (int pc = 0; pc < p->n; pc++) {
     op_t * o = &p->ops[pc];
     const char * op = o->w[0];
     long r = 0; ex[0] = 0;
     ev_call(T, o);
+    if (!strcmp(op, "ifret")) {
+      /* ifret V <op> <args..> (C06, object lifecycle): run <op> only if the previous op of this thread returned V
+         (e.g. only the serial thread of a barrier round destroys / re-initialises the barrier); the inner op has
+         its own C / R lines; `ifret` itself returns the tested value, so several `ifret` in a row test the same one */
+      if (last_r == num(o->w[1]) && o->n >= 3) {
+        op_t inner; memset(&inner, 0, sizeof(inner)); inner.n = o->n - 2;
+        for (int i = 0; i < inner.n; i++) strcpy(inner.w[i], o->w[i + 2]);
+        prog_t one; one.ops = &inner; one.n = 1;
+        run_ops(T, &one, exit_val);
+        sprintf(ex, "taken=1");
+      } else sprintf(ex, "taken=0");
+      r = last_r;
+      ev_ret(T, r, ex);
+      continue;
+    }
     if (!strcmp(op, "create")) {
       int C = (int)num(o->w[1]);
       myth_thread_attr_t a; myth_thread_t id = 0;
@@ -689,10 +705,42 @@ static void run_ops(int T, prog_t * p, void ** exit_val) {
       r = myth_cond_broadcast(&obj_named(o->w[1])->u.c);
     } else if (!strcmp(op, "bwait")) {
       r = myth_barrier_wait(&obj_named(o->w[1])->u.b);
+    } else if (!strcmp(op, "bdestroy")) {
+      /* bdestroy B / binit B N [attr] (C06, object lifecycle): destroy / (re-)initialise barrier B through the public
+         API, with attr == NULL or with a myth_barrierattr_t initialised by myth_barrierattr_init (destroyed right
+         after the call).  The caller guarantees that nobody is blocked in or entering a wait on B. */
+      obj_t * b = obj_named(o->w[1]); r = myth_barrier_destroy(&b->u.b);
+    } else if (!strcmp(op, "binit")) {
+      obj_t * b = obj_named(o->w[1]); long N = num(o->w[2]);
+      if (has(o, "attr")) {
+        myth_barrierattr_t a; memset(&a, 0x5a, sizeof(a));
+        myth_barrierattr_init(&a);
+        r = myth_barrier_init(&b->u.b, &a, N);
+        myth_barrierattr_destroy(&a);
+      } else {
+        r = myth_barrier_init(&b->u.b, 0, N);
+      }
+      b->param = N;
+      sprintf(ex, "state=%ld n=%ld", (long)b->u.b.state, (long)b->u.b.n_threads);
     } else if (!strcmp(op, "jcwait")) {
       r = myth_join_counter_wait(&obj_named(o->w[1])->u.j);
     } else if (!strcmp(op, "jcdec")) {
       r = myth_join_counter_dec(&obj_named(o->w[1])->u.j);
+    } else if (!strcmp(op, "jcinit")) {
+      /* jcinit J N [attr] (C07, object lifecycle): (re-)initialise join counter J for N decrements through the
+         public API, with attr == NULL or with a myth_join_counterattr_t initialised by myth_join_counterattr_init
+         (destroyed right after the call).  The caller guarantees that nobody is inside wait/dec on J. */
+      obj_t * j = obj_named(o->w[1]); long N = num(o->w[2]);
+      if (has(o, "attr")) {
+        myth_join_counterattr_t a; memset(&a, 0x5a, sizeof(a));
+        myth_join_counterattr_init(&a);
+        r = myth_join_counter_init(&j->u.j, &a, (int)N);
+        myth_join_counterattr_destroy(&a);
+      } else {
+        r = myth_join_counter_init(&j->u.j, 0, (int)N);
+      }
+      j->param = N;
+      sprintf(ex, "state=%ld n=%ld bits=%d mask=%ld", (long)j->u.j.state, (long)j->u.j.n_threads, (int)j->u.j.n_threads_bits, (long)j->u.j.state_mask);
     } else if (!strcmp(op, "uwait")) {
       r = myth_uncond_wait(&obj_named(o->w[1])->u.u);
     } else if (!strcmp(op, "usignal")) {
@@ -711,6 +759,19 @@ static void run_ops(int T, prog_t * p, void ** exit_val) {
     } else if (!strcmp(op, "festatus")) {
       /* festatus F : r = myth_felock_status(F) (an unlocked read of the status word, no POINT) (C09) */
       obj_t * f = obj_named(o->w[1]); r = myth_felock_status(&f->u.f);
+    } else if (!strcmp(op, "fedestroy")) {
+      /* fedestroy F : myth_felock_destroy(F); the object's memory is left as it is (C09 object lifecycle) */
+      obj_t * f = obj_named(o->w[1]); r = myth_felock_destroy(&f->u.f);
+    } else if (!strcmp(op, "feinit")) {
+      /* feinit F [attr] : myth_felock_init(F, NULL) or, with `attr`, with an initialised myth_felockattr_t;
+         the R line carries the status word right after the initialisation */
+      obj_t * f = obj_named(o->w[1]);
+      if (o->n > 2 && !strcmp(o->w[2], "attr")) {
+        myth_felockattr_t a; memset(&a, 0x5a, sizeof(a)); myth_felockattr_init(&a);
+        r = myth_felock_init(&f->u.f, &a); myth_felockattr_destroy(&a);
+      } else r = myth_felock_init(&f->u.f, 0);
+      f->occ = 0;
+      sprintf(ex, "status=%d", f->u.f.status);
     } else if (!strcmp(op, "once")) {
       obj_t * oc = obj_named(o->w[1]); once_T = T; once_script = oc->script;
       r = myth_once(&oc->u.o, once_routine);
@@ -761,6 +822,7 @@ static void run_ops(int T, prog_t * p, void ** exit_val) {
       fprintf(stderr, "lib_interp: unknown op %s\n", op); exit(2);
     }
     ev_ret(T, r, ex);
+    last_r = r;
   }
 }
 
